@@ -64,6 +64,7 @@ class Ctx:
                 if isinstance(d, nix.RangeDimension) and self.rdim is None:
                     self.rdim = d
         self.feat = first(self.tag.features) if self.tag is not None else None
+        self.autonames = True if (b is not None and "newmt-positions" in b.data_arrays and "newmt-extents" in b.data_arrays) else None
 
 
 def need(*names):
@@ -118,6 +119,8 @@ fault("Block.create_multi_tag", "slash-in-name", "b")(lambda c: c.b.create_multi
 fault("Block.create_multi_tag", "empty-type", "b", retry=lambda c: c.b.create_multi_tag("newmt", "t", [1.0]))(lambda c: c.b.create_multi_tag("newmt", "", [1.0]))
 fault("Block.create_multi_tag", "positions-none", "b", retry=lambda c: c.b.create_multi_tag("newmt", "t", [1.0]))(lambda c: c.b.create_multi_tag("newmt", "t", None))
 fault("Block.create_multi_tag", "extents-not-convertible", "b", retry=lambda c: c.b.create_multi_tag("newmt", "t", [1.0]))(lambda c: c.b.create_multi_tag("newmt", "t", [1.0], extents=object()))
+fault("Block.create_multi_tag", "auto-positions-name-taken", "b", "autonames")(lambda c: c.b.create_multi_tag("newmt", "t", [1.0]))
+fault("Block.create_multi_tag", "auto-extents-name-taken", "b", "autonames", "da")(lambda c: c.b.create_multi_tag("newmt", "t", c.da, extents=[1.0]))
 fault("Block.create_group", "duplicate-name", "b", "grp")(lambda c: c.b.create_group(c.grp.name, "t"))
 fault("Block.create_group", "slash-in-name", "b")(lambda c: c.b.create_group("a/b", "t"))
 fault("Block.create_group", "empty-type", "b", retry=lambda c: c.b.create_group("newgrp", "t"))(lambda c: c.b.create_group("newgrp", ""))
@@ -199,6 +202,10 @@ fault("Block.data_arrays.__delitem__", "wrong-kind", "b", "tag")(lambda c: c.b.d
 # ---- tags
 fault("Tag.position", "non-numeric", "tag")(lambda c: setattr(c.tag, "position", ["a"]))
 fault("Tag.extent", "non-numeric", "tag")(lambda c: setattr(c.tag, "extent", ["a"]))
+fault("Tag.position", "non-numeric-ndarray-longer", "tag")(lambda c: setattr(c.tag, "position", np.array(["a", "b", "c"])))
+fault("Tag.extent", "non-numeric-ndarray", "tag")(lambda c: setattr(c.tag, "extent", np.array(["on"])))
+fault("DataArray.polynom_coefficients", "non-numeric-ndarray", "da")(lambda c: setattr(c.da, "polynom_coefficients", np.array(["a", "b"])))
+fault("RangeDimension.ticks", "non-numeric-ndarray", "rdim")(lambda c: setattr(c.rdim, "ticks", np.array(["a", "b"])))
 fault("Tag.units", "non-string", "tag")(lambda c: setattr(c.tag, "units", [5]))
 fault("Tag.units", "second-element-non-string", "tag")(lambda c: setattr(c.tag, "units", ["ms", 5]))
 fault("Tag.references.append", "wrong-kind", "tag", "grp")(lambda c: c.tag.references.append(c.grp))
@@ -239,7 +246,8 @@ fault("DataFrame.write_cell", "unknown-column", "df")(lambda c: c.df.write_cell(
 
 
 def state_list(tier):
-    states = [{"seed": "empty", "ops": []}, {"seed": "block", "ops": []}, {"seed": "mini", "ops": []}, {"seed": "rich", "ops": []}]
+    states = [{"seed": "empty", "ops": []}, {"seed": "block", "ops": []}, {"seed": "mini", "ops": []}, {"seed": "rich", "ops": []},
+              {"seed": "mini+autonames", "ops": []}]
     for h in explorer.enumerate_histories("mini", 1, THIN):
         if h[-1][0] != "reopen":
             states.append({"seed": "mini", "ops": h})
@@ -291,6 +299,7 @@ def run_case(case):
             if any(getattr(ctx, n) is None for n in fa["needs"]):
                 continue
             r.evals += 1
+            env.CLOCK.advance(7)        # any timestamp written by a refused call becomes visible
             try:
                 fa["fn"](ctx)
                 exc = None
@@ -326,7 +335,7 @@ def run_case(case):
                        "%s (%s) raised %s; the public walk is unchanged but the HDF5 file changed: %s" % (
                            fa["site"], fa["cls"], type(exc).__name__, "; ".join(dd[:3])),
                        {"state": case, "exception": "%s: %s" % (type(exc).__name__, str(exc)[:200])})
-            elif fa["retry"] is not None:
+            elif fa["retry"] is not None and not (ctx.autonames and fa["site"] == "Block.create_multi_tag"):
                 # the rejected name must still be available
                 try:
                     fa["retry"](ctx)
